@@ -4,6 +4,7 @@ import (
 	"errors"
 	"fmt"
 	"runtime"
+	"sort"
 	"strings"
 	"sync"
 	"sync/atomic"
@@ -20,7 +21,8 @@ import (
 // setup, yield points perturbed; afterwards every negotiation-changing call. Oracles: all closers return; signaling and
 // connection state are closed and stay closed; mutating calls return *rtcerr.InvalidStateError; the recorded
 // OnConnectionStateChange sequence has nothing after the first closed; after GracefulClose returned on both peers no
-// goroutine running pion code is left (bounded settle).
+// goroutine running pion code is left (bounded settle); no GracefulClose call returns while an invocation of one of the
+// user's event handlers (any kind, see c21_handlers_test.go) is still in flight on a goroutine the connection started.
 
 type c21Rec struct {
 	mu   sync.Mutex
@@ -81,7 +83,7 @@ func c21PionGoroutines() []string {
 		if !strings.Contains(g, "github.com/pion/") {
 			continue
 		}
-		if strings.Contains(g, "vf_c21_test.go") || strings.Contains(g, "TestVerifC21") || strings.Contains(g, "internal/verifkit") {
+		if strings.Contains(g, "/vf_c21") || strings.Contains(g, "TestVerifC21") || strings.Contains(g, "internal/verifkit") {
 			continue
 		}
 		out = append(out, g)
@@ -111,6 +113,9 @@ func c21TopFrame(stack string) string {
 func TestVerifC21(t *testing.T) { //nolint:cyclop,gocognit,maintidx
 	run := kit.Start(t, "C21", "close point {before-sdp, after-setlocal, during-ice, connected-idle, during-transfer} × 1–4 concurrent closers drawn from "+
 		"{Close, GracefulClose} on one or both peers (barrier start, seeded yields, handler goroutines descheduled at entry) followed by every mutating call; "+
+		"every event handler of the connection, its transports and its 1-3 data channels registered, a random subset of handler kinds slow (held from close start "+
+		"until a gate opens); transfer = RTP plus data-channel messages in a random direction set {a>b, b>a, both} with random sizes, close issued at once or when a "+
+		"message handler is busy; "+
 		"non-trivial = ≥2 closers or a close during ice/transfer; distinct by (point, closer mix, observed handler sequence)")
 	defer run.Finish()
 	sched := kit.NewSched(kit.Seed())
@@ -146,8 +151,6 @@ func TestVerifC21(t *testing.T) { //nolint:cyclop,gocognit,maintidx
 		r := run.CaseRand(i)
 		recA, recB := &c21Rec{slow: kit.NewRand(kit.Seed(), uint64(i)*2+1)}, &c21Rec{slow: kit.NewRand(kit.Seed(), uint64(i)*2+2)}
 		a, b := rigMustPC(rigOpts{Interceptors: r.Bool()}), rigMustPC(rigOpts{Interceptors: r.Bool()})
-		a.OnConnectionStateChange(recA.handler)
-		b.OnConnectionStateChange(recB.handler)
 		gateA, gateB := &c21Gate{open: make(chan struct{})}, &c21Gate{open: make(chan struct{})}
 		useGate := c.rep%2 == 0
 		if useGate {
@@ -156,6 +159,55 @@ func TestVerifC21(t *testing.T) { //nolint:cyclop,gocognit,maintidx
 		}
 		gateOf := map[*PeerConnection]*c21Gate{a: gateA, b: gateB}
 		var gateViol atomic.Int32
+		// slow-handler class: which handler kinds are held during the close, per peer (own random stream: the draws
+		// above stay what they were)
+		hr := kit.NewRand(kit.Seed(), 1<<40+uint64(i))
+		gatedDesc := map[string]string{}
+		mkHooks := func(name string) *c21Hooks {
+			gated := map[string]bool{}
+			var names []string
+			for _, k := range c21HandlerKinds {
+				if hr.Chance(0.6) {
+					gated[k] = true
+					names = append(names, k)
+				}
+			}
+			gatedDesc[name] = strings.Join(names, ",")
+
+			return newC21Hooks(gated)
+		}
+		hooksA, hooksB := mkHooks("a"), mkHooks("b")
+		hooksOf := map[*PeerConnection]*c21Hooks{a: hooksA, b: hooksB}
+		lowThreshold := uint64(hr.Intn(4096))
+		hooksA.install(a, lowThreshold)
+		hooksB.install(b, lowThreshold)
+		a.OnConnectionStateChange(func(s PeerConnectionState) { recA.handler(s); hooksA.enter("pc.OnConnectionStateChange") })
+		b.OnConnectionStateChange(func(s PeerConnectionState) { recB.handler(s); hooksB.enter("pc.OnConnectionStateChange") })
+		var hookViolMu sync.Mutex
+		hookViol := map[string]string{} // signature -> first observation
+		judgeHooks := func(pc *PeerConnection, peer, phase string) {
+			for _, k := range hooksOf[pc].inflightKinds() {
+				parts := strings.SplitN(k, ":", 2) // handler kind, function that started the goroutine
+				sig := "gracefulclose-returned-while-handler-running:" + k
+				if strings.HasPrefix(parts[1], "ice.") {
+					// The goroutine is one of the ICE agent's: whichever ICE handler it is running, the cause is the one
+					// the ICE-connection-state gate reports (the agent's goroutines were not waited for), so it gets that
+					// signature: what a GracefulClose can wait for depends on the setup point and on an earlier plain Close.
+					sig = "gracefulclose-returned-while-ice-handler-running:"
+					if strings.HasPrefix(phase, "after") {
+						sig += "after-close:"
+					}
+					sig += c.point
+				}
+				hookViolMu.Lock()
+				if _, ok := hookViol[sig]; !ok {
+					hookViol[sig] = fmt.Sprintf("peer %s, %s: an invocation of the %s handler had not returned; it runs on a goroutine the connection started in %s",
+						peer, phase, parts[0], parts[1])
+				}
+				hookViolMu.Unlock()
+			}
+		}
+		peerName := map[*PeerConnection]string{a: "a", b: "b"}
 		track, err := NewTrackLocalStaticRTP(RTPCodecCapability{MimeType: MimeTypeVP8}, "v", "s")
 		if err != nil {
 			t.Fatal(err)
@@ -164,10 +216,22 @@ func TestVerifC21(t *testing.T) { //nolint:cyclop,gocognit,maintidx
 		if err != nil {
 			t.Fatal(err)
 		}
-		dc, err := a.CreateDataChannel("c21", nil)
-		if err != nil {
-			t.Fatal(err)
+		nChannels := 1 + hr.Intn(3)
+		for k := 0; k < nChannels; k++ {
+			var init *DataChannelInit
+			if hr.Chance(0.3) {
+				ordered, rtx := false, uint16(hr.Intn(3))
+				init = &DataChannelInit{Ordered: &ordered, MaxRetransmits: &rtx}
+			}
+			d, e := a.CreateDataChannel(fmt.Sprintf("c21-%d", k), init)
+			if e != nil {
+				t.Fatal(e)
+			}
+			hooksA.adoptChannel(d, lowThreshold)
 		}
+		direction := kit.Pick(hr, []string{"a>b", "b>a", "both"})
+		waitBusy := hr.Bool()
+		maxMsg := kit.Pick(hr, []int{1, 64, 1200, 9000})
 		label := fmt.Sprintf("%s|%s", c.point, strings.Join(c.mix, "+"))
 		setupOK := true
 		stopTransfer := make(chan struct{})
@@ -207,6 +271,38 @@ func TestVerifC21(t *testing.T) { //nolint:cyclop,gocognit,maintidx
 				break
 			}
 			if c.point == "during-transfer" {
+				// "during data transfer": every channel is open on both sides and messages are being delivered to the
+				// receiving side's handlers when the closers start
+				opened := func() bool {
+					if len(hooksB.channels()) != nChannels {
+						return false
+					}
+					for _, d := range append(hooksA.channels(), hooksB.channels()...) {
+						if d.ReadyState() != DataChannelStateOpen {
+							return false
+						}
+					}
+
+					return true
+				}
+				for deadline := time.Now().Add(wd); !opened(); time.Sleep(time.Millisecond) {
+					if time.Now().After(deadline) {
+						setupOK = false
+
+						break
+					}
+				}
+				if !setupOK {
+					break
+				}
+				var senders []*DataChannel
+				if direction != "b>a" {
+					senders = append(senders, hooksA.channels()...)
+				}
+				if direction != "a>b" {
+					senders = append(senders, hooksB.channels()...)
+				}
+				payload := hr.Bytes(maxMsg)
 				transfer.Add(1)
 				go func() {
 					defer transfer.Done()
@@ -218,12 +314,23 @@ func TestVerifC21(t *testing.T) { //nolint:cyclop,gocognit,maintidx
 						default:
 						}
 						_ = track.WriteRTP(&rtp.Packet{Header: rtp.Header{Version: 2, SequenceNumber: seq, Timestamp: uint32(seq) * 3000}, Payload: []byte{1, 2, 3, 4}})
-						_ = dc.Send([]byte("x"))
+						for k, d := range senders {
+							_ = d.Send(payload[:1+(int(seq)*7919+k*131)%maxMsg])
+						}
 						seq++
 						time.Sleep(200 * time.Microsecond)
 					}
 				}()
-				time.Sleep(3 * time.Millisecond)
+				flowing := func() bool {
+					return (direction == "b>a" || hooksB.msgs.Load() > 0) && (direction == "a>b" || hooksA.msgs.Load() > 0)
+				}
+				for deadline := time.Now().Add(2 * time.Second); !flowing() && time.Now().Before(deadline); {
+					time.Sleep(200 * time.Microsecond)
+				}
+				if !flowing() {
+					run.Count("transfer_not_flowing_at_close", 1)
+				}
+				time.Sleep(time.Duration(hr.Intn(3000)) * time.Microsecond)
 			}
 		}
 		if !setupOK {
@@ -258,15 +365,36 @@ func TestVerifC21(t *testing.T) { //nolint:cyclop,gocognit,maintidx
 					if gateOf[pc].inflight.Load() > 0 {
 						gateViol.Add(1)
 					}
+					judgeHooks(pc, peerName[pc], "closer "+strings.Join(c.mix, "+"))
 				}
 			}(pc, kind)
 		}
 		gateA.closing.Store(true)
 		gateB.closing.Store(true)
-		go func() { // the blocked handler invocations are let go 30 ms after the closers started
-			time.Sleep(30 * time.Millisecond)
+		hooksA.closing.Store(true)
+		hooksB.closing.Store(true)
+		if c.point == "during-transfer" && waitBusy {
+			// schedule class "the read loop is inside the user's message handler when the close is issued"
+			want := func(h *c21Hooks, receives bool) bool { return receives && h.gated["dc.OnMessage"] }
+			wA, wB := want(hooksA, direction != "a>b"), want(hooksB, direction != "b>a")
+			for deadline := time.Now().Add(200 * time.Millisecond); (wA || wB) && time.Now().Before(deadline); {
+				if (wA && hooksA.busy("dc.OnMessage")) || (wB && hooksB.busy("dc.OnMessage")) {
+					run.Count("closes_issued_while_message_handler_busy", 1)
+
+					break
+				}
+				time.Sleep(100 * time.Microsecond)
+			}
+		}
+		gatesOpen := make(chan struct{})
+		holdFor := time.Duration(30+hr.Intn(40)) * time.Millisecond
+		go func() { // the held handler invocations are let go 30-70 ms after the closers started
+			time.Sleep(holdFor)
 			close(gateA.open)
 			close(gateB.open)
+			close(hooksA.open)
+			close(hooksB.open)
+			close(gatesOpen)
 		}()
 		close(start)
 		returned := make(chan struct{})
@@ -280,13 +408,15 @@ func TestVerifC21(t *testing.T) { //nolint:cyclop,gocognit,maintidx
 			run.Set("last_blocked_dump", firstN(string(buf[:n]), 4000))
 			close(stopTransfer)
 			sched.Perturb(0)
+			<-gatesOpen
 
 			continue
 		}
 		sched.Perturb(0)
 		close(stopTransfer)
 		transfer.Wait()
-		detail := map[string]any{"case": label, "rep": c.rep}
+		detail := map[string]any{"case": label, "rep": c.rep, "slow_handlers_a": gatedDesc["a"], "slow_handlers_b": gatedDesc["b"],
+			"channels": nChannels, "direction": direction, "max_msg": maxMsg, "close_when_busy": waitBusy, "hold_ms": holdFor.Milliseconds()}
 		viol := func(sig, what string) { run.Violation(sig, label+": "+what, i, detail) }
 
 		if n := gateViol.Load(); n > 0 {
@@ -327,18 +457,46 @@ func TestVerifC21(t *testing.T) { //nolint:cyclop,gocognit,maintidx
 			if gateA.inflight.Load() > 0 {
 				gateViol.Add(100)
 			}
+			judgeHooks(a, "a", "after the closers had returned")
 			_ = b.GracefulClose()
 			if gateB.inflight.Load() > 0 {
 				gateViol.Add(100)
 			}
+			judgeHooks(b, "b", "after the closers had returned")
 			close(endClosers)
 		}()
 		select {
 		case <-endClosers:
 		case <-time.After(wd):
 			run.Inconclusive("final-gracefulclose-did-not-return:" + label)
+			<-gatesOpen
 
 			continue
+		}
+		hookViolMu.Lock()
+		var hookSigs []string
+		for k := range hookViol {
+			hookSigs = append(hookSigs, k)
+		}
+		sort.Strings(hookSigs)
+		for _, k := range hookSigs {
+			viol(k, "a GracefulClose call returned while a goroutine started by the connection was still running the user's event handler ("+hookViol[k]+")")
+		}
+		hookViolMu.Unlock()
+		<-gatesOpen // every held handler has been let go: the recorded sequences below are complete after the settle
+		for _, h := range []*c21Hooks{hooksA, hooksB} {
+			h.mu.Lock()
+			for k, n := range h.blocked {
+				run.Count("handler_invocations_held_during_close:"+k, n)
+			}
+			for k, n := range h.foreign {
+				run.Count("handler_invocations_on_caller_goroutine_not_judged:"+k, n)
+			}
+			h.mu.Unlock()
+		}
+		if c.point == "during-transfer" {
+			run.Seen("transfer_directions", direction)
+			run.Count("messages_delivered_to_handlers", int(hooksA.msgs.Load()+hooksB.msgs.Load()))
 		}
 		if n := gateViol.Load(); n >= 100 {
 			viol("gracefulclose-returned-while-ice-handler-running:after-close:"+c.point,
